@@ -30,9 +30,12 @@ UTC = datetime.timezone.utc
 class Src:
     """Hands out leaves from a condition's flat parameters (named i0.., s0.., b0.., f0.., y0..)."""
 
-    def __init__(self, params: dict):
+    NARROW_STRS = ("", "a", "1")
+
+    def __init__(self, params: dict, narrow=False):
         self.p = params
-        self.n = {"i": 0, "s": 0, "b": 0, "f": 0, "y": 0}
+        self.narrow = narrow  # leaves restricted to tiny domains (ints [-1,1], 3 strings): used where the
+        self.n = {"i": 0, "s": 0, "b": 0, "f": 0, "y": 0}  # code under test stringifies / realises them
 
     def _next(self, k):
         name = f"{k}{self.n[k]}"
@@ -41,6 +44,8 @@ class Src:
 
     def int(self, lo=None, hi=None):
         x = self._next("i")
+        if lo is None and hi is None and self.narrow:
+            lo, hi = -1, 1
         if lo is not None:
             assume(lo <= x)
         if hi is not None:
@@ -55,6 +60,10 @@ class Src:
 
     def str(self, maxlen=2):
         s = self._next("s")
+        if self.narrow:
+            a, b, c = self.NARROW_STRS
+            assume(s == a or s == b or s == c)
+            return s
         assume(len(s) <= maxlen)
         return s
 
@@ -78,6 +87,7 @@ class CountSrc(Src):
     """Dry run: counts the leaves a builder consumes."""
 
     def __init__(self):
+        self.narrow = False
         self.n = {"i": 0, "s": 0, "b": 0, "f": 0, "y": 0}
 
     def _next(self, k):
@@ -255,7 +265,11 @@ class Lit(Picked):
         super().__init__(t.Literal[tuple(values)], values, name="Literal" + repr(list(values)), transparent=True)
 
     def conforms(self, r):
-        return None if any(type(r) is type(x) and r == x for x in self.values) else "not_a_member"
+        if any(type(r) is type(x) and r == x for x in self.values):
+            return None
+        if any(r == x and {type(r), type(x)} == {bool, int} for x in self.values):
+            return "bool_int_alias"  # 1 == True: `in` on the member tuple cannot tell them apart
+        return "not_a_member"
 
 
 class Seq(Shape):
@@ -578,3 +592,109 @@ def DequeOf(e, n=2): return Seq(collections.deque[e.T], collections.deque, e, n,
 def VarTuple(e, n=2): return Seq(tuple[e.T, ...], tuple, e, n, f"tuple[{e.name},...]")
 def DictOf(k, v, n=2): return Map(dict[k.T, v.T], dict, k, v, n, f"dict[{k.name},{v.name}]")
 def MappingOf(k, v, n=2): return Map(t.Mapping[k.T, v.T], dict, k, v, n, f"Mapping[{k.name},{v.name}]")
+
+
+# ------------------------------------------------------------------------------- arbitrary inputs (J)
+J_STRS = ["", "a", "1", "null", "[1]", '{"a": 1}', "1.5", "2020-01-01", "ab"]
+J_STRS_SMALL = ["a", "1", "[1]"]
+J_FLOATS = [1.5, -2.25]
+
+
+class JVal(Shape):
+    """x in J = None | bool | int | float | str | list[J] | dict[str, J], depth-bounded.  Consumes leaves
+    lazily from the int pool (`pool(depth)` is the worst case).  Members of containers use the reduced
+    leaf set (`small`); bools are concrete (a proxy bool leaks through vars()/getattr)."""
+
+    T = object
+    transparent = True
+
+    def __init__(self, depth=1, wide_ints=False, strs=None, maxlen=2, extra=(), small_inner=True, keys=("a", "x")):
+        self.depth, self.wide, self.strs, self.maxlen = depth, wide_ints, strs or J_STRS, maxlen
+        self.extra = list(extra)  # additional concrete objects (instances of unrelated classes, bytes ...)
+        self.small_inner, self.keys = small_inner, list(keys)
+        self.name = f"J{depth}"
+
+    @staticmethod
+    def pool(depth, maxlen=2):
+        return 2 if depth == 0 else 2 + maxlen + maxlen * JVal.pool(depth - 1, maxlen)
+
+    def build(self, src, depth=None, inner=False):
+        d = self.depth if depth is None else depth
+        small = inner and self.small_inner
+        nk = 5 + (1 if self.extra and not small else 0) + (2 if d > 0 else 0)
+        k = src.sel(nk)
+        if k == 0:
+            return None
+        if k == 1:
+            if small:
+                return True
+            return True if src.sel(2) == 1 else False
+        if k == 2:
+            return src.int() if self.wide else src.int(-1, 1)
+        if k == 3:
+            return 1.5 if small else pick(src.sel(len(J_FLOATS)), J_FLOATS)
+        if k == 4:
+            strs = J_STRS_SMALL if small else self.strs
+            return pick(src.sel(len(strs)), strs)
+        base = 5
+        if self.extra and not small:
+            if k == 5:
+                return pick(src.sel(len(self.extra)), self.extra)
+            base = 6
+        n = src.int(0, self.maxlen)
+        if k == base:
+            out = []
+            for i in range(self.maxlen):
+                if i < n:
+                    out.append(self.build(src, d - 1, True))
+            return out
+        outd = {}
+        for i in range(self.maxlen):
+            if i < n:
+                kk = pick(src.sel(len(self.keys)), self.keys)
+                outd[kk] = self.build(src, d - 1, True)
+        return outd
+
+
+def jparams(depth, maxlen=2, prefix="i"):
+    return [(f"{prefix}{j}", int) for j in range(JVal.pool(depth, maxlen))]
+
+
+def corrupt(m, src, prim: "JVal"):
+    """One symbolic corruption of a wire form (DESIGN C03): drop / rename / retype a field, remove / add
+    an element, wrap / unwrap a level.  Consumes <= 4 ints + one depth-0 J value."""
+    op = src.sel(6)
+    idx = src.sel(3)
+    junk = prim.build(src, 0, True)
+    if op == 4:
+        return [m]
+    tm = type(m)
+    if tm is dict:
+        keys = list(m.keys())
+        if op == 5:
+            return {**m, "zz": junk}
+        if len(keys) == 0:
+            return junk
+        k = keys[0] if idx == 0 or len(keys) < 2 else (keys[1] if idx == 1 or len(keys) < 3 else keys[2])
+        if op == 0:
+            return {a: b for a, b in m.items() if a != k}
+        if op == 1:
+            return {("zz" if a == k else a): b for a, b in m.items()}
+        if op == 2:
+            return {a: (junk if a == k else b) for a, b in m.items()}
+        return m[k]  # unwrap
+    if tm is list:
+        n = len(m)
+        if op == 5:
+            return [*m, junk]
+        if n == 0:
+            return junk
+        i = 0 if idx == 0 or n < 2 else (1 if idx == 1 or n < 3 else 2)
+        if op == 0:
+            return [x for j, x in enumerate(m) if j != i]
+        if op == 1:
+            return [junk, *m]
+        if op == 2:
+            return [(junk if j == i else x) for j, x in enumerate(m)]
+        return m[i]  # unwrap
+    return junk
